@@ -19,12 +19,14 @@ using vf::Csr; using vf::J; using vf::Rng; using vf::Case; using vfm::Part; usin
 typedef backend::builtin<double> BD; typedef backend::builtin<float> BF;
 typedef mpi::distributed_matrix<BD> DM; typedef mpi::distributed_matrix<BF> DMF;
 typedef backend::crs<double> M;
+// a second backend type with the same value type: copies between BD and BD2 go through the backend-converting constructor
+struct BD2 : backend::builtin<double> {}; typedef mpi::distributed_matrix<BD2> DM2;
 
 static int g_rank = 0, g_size = 1;
 static MPI_Comm g_world;
 
 // tags of the bag
-enum { T_ERR = 1, T_SCAL, T_A, T_T, T_C, T_S, T_F, T_D2, T_A2, T_Y, T_R, T_YT, T_YC, T_YF };
+enum { T_ERR = 1, T_SCAL, T_A, T_T, T_C, T_S, T_F, T_D2, T_A2, T_Y, T_R, T_YT, T_YC, T_YF, T_SRC, T_CP, T_Y2 };
 // ids of rank-local oracles (T_ERR records: i = oracle id, v = error code)
 enum { E_A = 1, E_B, E_T, E_C, E_S, E_F, E_D2, E_SORT, E_RROWS, E_RROWS_NV, E_XCHG, E_THROW };
 static const char *ename(long id) { static const char *n[] = {"", "ctor", "ctor(B)", "transpose", "product", "sort_rows", "copy_backend", "copy_backend_back", "sort_rows:not-sorted", "remote_rows", "remote_rows_novalues", "comm_pattern:exchange", "exception"}; return n[id]; }
@@ -117,7 +119,7 @@ static void check_all(Case &c, Rng &r, const Csr<double> &G, const Csr<double> &
     double alpha = exact ? (double)r.range(-2, 3) : r.uni(-2, 2), beta = r.coin(0.3) ? 0.0 : (exact ? (double)r.range(-2, 2) : r.uni(-2, 2));
     std::vector<double> xk = exact ? vf::random_int_vector(k, r, 4) : vf::random_vector(k, r), yn = exact ? vf::random_int_vector(n, r, 4) : vf::random_vector(n, r);
     std::vector<double> xn = exact ? vf::random_int_vector(n, r, 4) : vf::random_vector(n, r), xm = exact ? vf::random_int_vector(m, r, 4) : vf::random_vector(m, r);
-    bool keep = r.coin(), tuple_ctor = r.coin(0.3);
+    bool keep = r.coin(), tuple_ctor = r.coin(0.3); double sc2 = (double)(2 + r.range(0, 2)) * (r.coin() ? 1 : -1);
     bool square = (n == k) && (rn == rk); bool fulldiag = square;
     if (square) for (long i = 0; i < n && fulldiag; ++i) { bool has = false; for (auto j = G.ptr[i]; j < G.ptr[i + 1]; ++j) if (G.col[j] == i && G.val[j] != 0) has = true; fulldiag = has; }
     double g0 = 0, g1 = 0, p1 = 0, p3 = 0, p1s = 0, dot = 0, dot2 = 0;
@@ -151,6 +153,10 @@ static void check_all(Case &c, Rng &r, const Csr<double> &G, const Csr<double> &
           for (auto part : {S->local(), S->remote()}) for (size_t i = 0; i < part->nrows; ++i) for (auto j = part->ptr[i] + 1; j < part->ptr[i + 1]; ++j) if (part->col[j - 1] >= part->col[j]) e = 1;
           bag.add(T_ERR, E_SORT, me, e);
           mpi::scale(*S, sc); bag.add(T_ERR, E_S, me, vfm::dm_local_check(*S, rn[me + 1] - rn[me], rk[me + 1] - rk[me], rk[me], k)); vfm::bag_dm(bag, T_S, *S, rn[me]); }
+        // copy between two backend types with the same value type, then in-place operations on the COPY: the source must stay what it was
+        // (a deep copy), the copy must be the sorted / scaled matrix
+        { auto Src = make_dm(comm, Gs, rn, rk); DM2 Cp(*Src); mpi::sort_rows(Cp); mpi::scale(Cp, sc2); vfm::bag_dm(bag, T_CP, Cp, rn[me]);
+          Cp.move_to_backend(); vfm::bag_dm(bag, T_SRC, *Src, rn[me]); }
         // copy between backends (double -> float -> double)
         std::shared_ptr<DMF> F;
         if (!o.light) { F = std::make_shared<DMF>(*A);
@@ -217,6 +223,7 @@ static void check_all(Case &c, Rng &r, const Csr<double> &G, const Csr<double> &
     cmp_mat(c, "ctor", bag, T_A, ref_of(G), true);
     cmp_mat(c, "transpose", bag, T_T, ref_of(G, 1, true), true);
     cmp_mat(c, "product", bag, T_C, RC, exact, 2.0 * (k + 2));
+    cmp_mat(c, "copy_same_value_type:source-after-inplace-ops-on-copy", bag, T_SRC, ref_of(G), true); cmp_mat(c, "copy_same_value_type:copy", bag, T_CP, ref_of(G, sc2), true);
     cmp_mat(c, "scale", bag, T_S, ref_of(G, sc), true);          // one rounding, the same one in the reference
     if (!o.light) { cmp_mat(c, "copy_backend", bag, T_F, ref_of(G, 1, false, true), true); cmp_mat(c, "copy_backend_back", bag, T_D2, ref_of(G, 1, false, true), true); }
     if (keep) cmp_mat(c, "move_to_backend_keep_src", bag, T_A2, ref_of(G), true);
@@ -276,15 +283,17 @@ static void sub_exhaustive() {
 // one couples to a distinct row of the other; the remaining ranks own a handful of rows.  Integer data, exact oracles; the matrices are far too
 // large for the dense references of check_all, so remote_rows is checked rank-locally against the global B and the product against a sparse
 // exact reference.
-static void check_large(Case &c, Rng &r, int ra, int rb, long big) {
+static void check_large(Case &c, Rng &r, int ra, int rb, long big, bool oneway) {
     mpi::communicator comm(g_world); Bag bag(g_world); const int me = g_rank;
     Part rn(g_size + 1, 0); for (int q = 0; q < g_size; ++q) rn[q + 1] = rn[q] + ((q == ra || q == rb) ? big : r.range(0, 12)); const long N = rn[g_size];
     std::vector<ptrdiff_t> pa(big), pb(big); for (long t = 0; t < big; ++t) pa[t] = pb[t] = t; r.shuffle(pa); r.shuffle(pb);
     auto ival = [&]() { double v = (double)r.range(1, 5); return r.coin() ? v : -v; };
     std::vector<std::tuple<ptrdiff_t, ptrdiff_t, double>> ta, tb;
     for (long i = 0; i < N; ++i) { int owner = 0; while (i >= rn[owner + 1]) ++owner;
-        if (owner == ra) ta.emplace_back(i, rn[rb] + pa[i - rn[ra]], ival()); else if (owner == rb) ta.emplace_back(i, rn[ra] + pb[i - rn[rb]], ival());
-        if (r.coin(0.5)) ta.emplace_back(i, i, ival()); if (r.coin(0.3)) ta.emplace_back(i, r.range(0, N - 1), ival()); }
+        // one-way: only rank a needs values of rank b; every other row couples to columns of its own rank only, so rank b SENDS ghost values but receives none
+        if (owner == ra) ta.emplace_back(i, rn[rb] + pa[i - rn[ra]], ival()); else if (owner == rb && !oneway) ta.emplace_back(i, rn[ra] + pb[i - rn[rb]], ival());
+        if (r.coin(0.5)) ta.emplace_back(i, i, ival()); if (r.coin(0.3)) ta.emplace_back(i, oneway ? r.range(rn[owner], rn[owner + 1] - 1) : r.range(0, N - 1), ival()); }
+    std::vector<double> x1 = vf::random_int_vector(N, r, 4), x2 = vf::random_int_vector(N, r, 4); long sleep_us = r.range(50000, 200000);
     long m = r.range(20, 60); for (long i = 0; i < N; ++i) { int w = (int)r.range(1, 3); for (int q = 0; q < w; ++q) tb.emplace_back(i, r.range(0, m - 1), ival()); }
     Csr<double> G = vf::from_triplets<double>(N, N, ta), H = vf::from_triplets<double>(N, m, tb); Part rm = vfm::random_part(m, g_size, r);
     try {
@@ -295,6 +304,13 @@ static void check_large(Case &c, Rng &r, int ra, int rb, long big) {
         bag.add(T_ERR, E_RROWS, me, check_remote_rows(*A, *B, H, true)); bag.add(T_ERR, E_RROWS_NV, me, check_remote_rows(*A, *B, H, false));
         auto C = mpi::product(*A, *B);
         bag.add(T_ERR, E_C, me, vfm::dm_local_check(*C, rn[me + 1] - rn[me], rm[me + 1] - rm[me], rm[me], m)); vfm::bag_dm(bag, T_C, *C, rn[me]);
+        { // two matrix-vector products in a row with different input vectors, no synchronisation in between; in the one-way case the receiving rank
+          // enters the first exchange late (one-shot sleep in the mpi.start_exchange hook), so the sender is already in the second product by then
+          auto A2 = make_dm(comm, G, rn, rn); A2->move_to_backend(); size_t nl = rn[me + 1] - rn[me]; backend::numa_vector<double> u1(nl), u2(nl), y1(nl), y2(nl);
+          for (size_t i = 0; i < nl; ++i) { u1[i] = x1[rn[me] + i]; u2[i] = x2[rn[me] + i]; y1[i] = 0; y2[i] = 0; }
+          if (oneway && me == ra && amgcl::verif::point_hook) vfm::delay_state().oneshot_us = sleep_us;
+          backend::spmv(1.0, *A2, u1, 0.0, y1); backend::spmv(1.0, *A2, u2, 0.0, y2);
+          vfm::delay_state().oneshot_us = 0; vfm::bag_vec(bag, T_Y, y1, nl, rn[me]); vfm::bag_vec(bag, T_Y2, y2, nl, rn[me]); }
         auto T = mpi::transpose(*A); bag.add(T_ERR, E_T, me, vfm::dm_local_check(*T, rn[me + 1] - rn[me], rn[me + 1] - rn[me], rn[me], N)); vfm::bag_dm(bag, T_T, *T, rn[me]);
         bag.add(T_ERR, E_THROW, me, 0);
     } catch (const std::exception &e) { c.fail("exception:distributed_matrix", e.what()); bag.add(T_ERR, E_THROW, me, 1); }
@@ -312,6 +328,9 @@ static void check_large(Case &c, Rng &r, int ra, int rb, long big) {
         c.check(pat, what + ":pattern", "assembled pattern differs from the serial definition (large interface)", J().n("entries", a.e.size()).n("expected", ref.size()));
         c.check(val, what + ":value", "integer-valued result differs from the exact serial value (large interface)"); };
     cmp("product", T_C, N, m, rc); cmp("transpose", T_T, N, N, rt);
+    for (int which = 0; which < 2; ++which) { const std::vector<double> &xx = which ? x2 : x1; std::vector<long double> ry(N, 0), ay(N, 0); for (long i = 0; i < N; ++i) for (auto j = G.ptr[i]; j < G.ptr[i + 1]; ++j) ry[i] += (long double)G.val[j] * xx[G.col[j]];
+        cmp_vec(c, which ? "spmv_second_of_two" : "spmv_first_of_two", bag, which ? T_Y2 : T_Y, ry, ay, true, 0); }
+    if (oneway) vf::obs_sum("one_way_large_interface_cases");
     vf::obs_sum("large_interface_cases");
 }
 
@@ -332,13 +351,14 @@ static void sub_random() {
         vf::sample("random_r" + std::to_string(g_size), J().n("ranks", g_size).n("n", n).n("k", k).n("m", m).n("nnzA", G.nnz()).bl("exact", exact).s("rows", vfm::part_str(rn)).s("inner", vfm::part_str(rk)), 1);
     }
     // large-interface cases (>= 2 ranks), same sub-check, indices N, N+1, ...
-    long L = g_size > 1 ? vf::opt_int("large_cases", vf::tier(3, 10)) : 0;
+    long L = g_size > 1 ? vf::opt_int("large_cases", vf::tier(4, 12)) : 0;
     for (long idx = N; idx < N + L; ++idx) {
         if (!vf::selected("random", idx)) continue;
         Rng r(vf::case_seed("random", idx)); vfm::seed_delays(vf::case_seed("random", idx), g_rank);
         int ra = (int)r.range(0, g_size - 1), rb = (int)r.range(0, g_size - 2); if (rb >= ra) ++rb; long big = r.range(1500, 2600);
-        Case c("random", idx, J().n("ranks", g_size).s("family", "large-interface").n("rows_per_big_rank", big).n("rank_a", ra).n("rank_b", rb).bl("exact", true));
-        check_large(c, r, ra, rb, big); c.nontrivial();
+        bool oneway = (idx - N) % 2 == 1;
+        Case c("random", idx, J().n("ranks", g_size).s("family", oneway ? "large-interface-one-way" : "large-interface").n("rows_per_big_rank", big).n("rank_a", ra).n("rank_b", rb).bl("exact", true));
+        check_large(c, r, ra, rb, big, oneway); c.nontrivial();
     }
 }
 
